@@ -68,15 +68,81 @@ func runG11(r *Repo, rep *Report) {
 				continue
 			}
 			n++
-			rb, _ := g.locate(ret.Pos())
-			ok := rb != nil && eqFn != nil && condOutcomeDominates(g, rb, func(c ast.Expr) (bool, bool) {
-				e, neg := stripNot(c)
-				call, isCall := e.(*ast.CallExpr)
-				if !isCall || callee(info, call) != eqFn.Fn {
-					return false, false
+			underEq := func(pos token.Pos) bool {
+				rb, _ := g.locate(pos)
+				return rb != nil && eqFn != nil && condOutcomeDominates(g, rb, func(c ast.Expr) (bool, bool) {
+					e, neg := stripNot(c)
+					call, isCall := e.(*ast.CallExpr)
+					if !isCall || callee(info, call) != eqFn.Fn {
+						return false, false
+					}
+					return !neg, true
+				})
+			}
+			ok := underEq(ret.Pos())
+			if !ok {
+				// the name may come out of a list that only ever receives names for which eq held (collected first, so that the
+				// choice among several matches does not depend on map order)
+				vetted := func(o types.Object) bool {
+					if o == nil {
+						return false
+					}
+					appends, good := 0, true
+					ast.Inspect(fi.Decl.Body, func(m ast.Node) bool {
+						as, isAs := m.(*ast.AssignStmt)
+						if !isAs {
+							return true
+						}
+						for i, l := range as.Lhs {
+							id, isID := l.(*ast.Ident)
+							if !isID || objOf(info, id) != o || i >= len(as.Rhs) {
+								continue
+							}
+							if c, isC := as.Rhs[i].(*ast.CallExpr); isC {
+								if bi, isB := callee(info, c).(*types.Builtin); isB && bi.Name() == "append" {
+									appends++
+									if !underEq(as.Pos()) {
+										good = false
+									}
+									continue
+								}
+								if bi, isB := callee(info, c).(*types.Builtin); isB && bi.Name() == "make" {
+									continue
+								}
+							}
+							if cl, isCL := as.Rhs[i].(*ast.CompositeLit); isCL && len(cl.Elts) == 0 {
+								continue
+							}
+							if nl, isNil := as.Rhs[i].(*ast.Ident); isNil && nl.Name == "nil" {
+								continue
+							}
+							good = false
+						}
+						return true
+					})
+					return good && appends > 0
 				}
-				return !neg, true
-			})
+				switch x := ast.Unparen(ret.Results[0]).(type) {
+				case *ast.IndexExpr:
+					if id, isID := ast.Unparen(x.X).(*ast.Ident); isID && vetted(info.Uses[id]) {
+						ok = true
+					}
+				case *ast.Ident:
+					// the value variable of a range over a vetted list
+					ast.Inspect(fi.Decl.Body, func(m ast.Node) bool {
+						rs, isR := m.(*ast.RangeStmt)
+						if !isR || rs.Value == nil {
+							return true
+						}
+						if v, isV := rs.Value.(*ast.Ident); isV && info.Defs[v] == info.Uses[x] {
+							if sid, isS := ast.Unparen(rs.X).(*ast.Ident); isS && vetted(info.Uses[sid]) {
+								ok = true
+							}
+						}
+						return true
+					})
+				}
+			}
 			if ok {
 				rep.pass("G11")
 				rep.sample(map[string]string{"rule": "G11 nameOf answers only under eq", "return": r.pos(ret.Pos())})
